@@ -426,6 +426,9 @@ def probes_of(case):
     return sorted(names)
 
 
+_SCRATCH_SET = set()
+
+
 def _apply(DB, objs, op):
     """Runs one operation; returns the new object (or None)."""
     k = op["op"]
@@ -440,12 +443,23 @@ def _apply(DB, objs, op):
             x.read(iter(op["lines"]), tf)
         return None
     if k == "insert":
-        x.insert(op["pkg"], set(op["tags"]))
+        # the caller keeps and recycles the set it passed (one scratch set per driver run, cleared and refilled),
+        # and edits it right after the call: the database must have taken a copy
+        s = _SCRATCH_SET
+        s.clear()
+        s.update(op["tags"])
+        x.insert(op["pkg"], s)
+        s.add("caller-owned-afterthought")
+        s.difference_update(list(op["tags"])[:1])
         return None
     if k in ("copy", "reverse", "reverse_copy", "facet_collection"):
         return getattr(x, k)()
     if k in ("choose_packages", "choose_packages_copy"):
-        return getattr(x, k)(list(op["arg"]))
+        # any iterable will do (Iterable[str]): a list, a tuple, or a one-shot iterator / generator
+        arg = list(op["arg"])
+        form = (len(arg) + len("".join(arg))) % 4
+        it = arg if form == 0 else tuple(arg) if form == 1 else iter(arg) if form == 2 else (a for a in arg)
+        return getattr(x, k)(it)
     if k in ("filter_packages", "filter_packages_copy", "filter_tags", "filter_tags_copy"):
         return getattr(x, k)(pred_fn(op["arg"]))
     if k in ("filter_packages_tags", "filter_packages_tags_copy"):
